@@ -129,6 +129,19 @@ def large_table(rng, nr, nc, kind):
     [3e-6, 1e-3] - residuals tiny RELATIVE to the expected count (the realm of rtol-style
     tolerances) yet worth |z| of 0.01 .. 50; margins balanced so that no share exceeds ~0.6;
     'random': independent counts up to 1e10 / (nr nc)."""
+    if kind == "dominant":
+        # one row (or one column) holds all but <= ~1e-5 of the table base, the other vectors a handful of
+        # respondents each: the dominant margin's base is within numpy's default `isclose` window of the
+        # table base without being equal to it (seeded change C12-6), residuals and z-scores are ordinary
+        flip = rng.random() < 0.5
+        a, b = (nc, nr) if flip else (nr, nc)
+        t = [[rng.randint(0, 3) for _ in range(b)] for _ in range(a)]
+        i0 = rng.randrange(a)
+        t[i0] = [rng.randint(10 ** 5, 10 ** 8) for _ in range(b)]
+        others = [i for i in range(a) if i != i0]
+        if others and all(x == 0 for i in others for x in t[i]):
+            t[rng.choice(others)][rng.randrange(b)] = rng.randint(1, 4)
+        return [list(r) for r in zip(*t)] if flip else t
     T = 10 ** rng.uniform(8, 10)
     if kind == "random":
         top = int(T / (nr * nc)) * 2
